@@ -514,6 +514,14 @@ def run_unit(unit, tier='quick', seed=0):
                                                           ('invariant' in f['kind'] or 'decreases' in f['kind'] or 'termination' in f['kind']))]
         if not r['failures'] and not r['undecided']:
             r['status'] = 'ok'
+    # an unknown std function is given the verifier's suggested declaration with NO contract (auto-havoc): its result is arbitrary,
+    # which is an over-approximation -- but a file operation also acts on the ghost disk, which an uncontracted call leaves as it
+    # was. A run in which the lifted code calls a file operation the disk model does not know is therefore not a proof of the
+    # clauses about file contents: the unit is undecided and the bounded stand-in search is asked instead.
+    eff = [h for h in (r.get('auto_havoc') or []) if re.search(r'(\bfs::|\bFile\b|OpenOptions|io::Write|io::Seek|io::Read)', h)]
+    if eff and 'std_fs_model.rs' in ''.join(r.get('meta', {}).get('includes', [])):
+        r['status'] = 'undecided'
+        r['undecided'].append('effect-unknown: the lifted code calls ' + ', '.join(eff) + ' -- a file operation the disk model (spec/std_fs_model.rs) has no contract for; what it does to the file is not accounted for')
     r.pop('_diags', None)
     return r
 
@@ -595,7 +603,7 @@ def check_property(pid, tier='quick', seed=0):
     # the verifier at all; the bounded search over the same oracles stands in for it. A found input is replayed on the real
     # code and reported (labelled bounded); finding none leaves the unit undecided.
     for r in results:
-        fe = [u for u in r['undecided'] if u.startswith('verifier front-end:') or u.startswith('lift')]
+        fe = [u for u in r['undecided'] if u.startswith('verifier front-end:') or u.startswith('lift') or u.startswith('effect-unknown:')]
         fe += [su['msg'] for su in r.get('undecided_scoped', []) if pid in su['properties']]
         if not fe or nviol or (r['status'] != 'undecided' and not any(pid in su['properties'] for su in r.get('undecided_scoped', []))):
             continue
